@@ -1,4 +1,5 @@
 import Verif.Model.AcmeSM
+import Verif.Model.AcmeConc
 /-!
   Line-protocol driver for C10 (ACME object state machine).
 
@@ -9,6 +10,10 @@ import Verif.Model.AcmeSM
     o:<acct>:<order>:<now>            get order
     f:<acct>:<order>:<now>:<c><g><u>  finalize; CSR names match, signing succeeds, final UpdateOrder fails (0/1 each)
     l:<acct>:<urlacct>:<now>          list the account's orders
+  any op may carry a storage fault suffix `!c<k>` / `!a<k>` / `!o<k>`: every update write of
+  challenge / authorization / order k fails while the request runs
+  A line `conc=reread|original|claim ths=<f|p>.<f|p>… sched=<i>.<i>…` runs the interleaving model
+  (Verif.AcmeConc) instead: output `conc<certificates>:<stored status after every step>`.
   Output: `T<total certificates>:<step>|<step>|…`, one step per op:
     `<resp>/<order statuses>/<certificates per order>/<authz statuses>/<challenge statuses>`
   statuses are letters p r v i in id order, certificate counts are joined by '.'.
@@ -39,6 +44,19 @@ def op? (t : String) : Option Op :=
   | ["l", a, u, n] => do pure (.listOrders (← nat? a) (← nat? u) (← nat? n))
   | _ => none
 
+def deny? (t : String) : Option Deny :=
+  match t.toList with
+  | 'c' :: r => (String.ofList r).toNat?.map .chal
+  | 'a' :: r => (String.ofList r).toNat?.map .authz
+  | 'o' :: r => (String.ofList r).toNat?.map .order
+  | _ => none
+
+def req? (t : String) : Option Req :=
+  match t.splitOn "!" with
+  | [o] => (op? o).map fun op => (Deny.none, op)
+  | [o, d] => do pure ((← deny? d), (← op? o))
+  | _ => none
+
 def stS : Status → String
   | .pending => "p" | .ready => "r" | .valid => "v" | .invalid => "i"
 
@@ -62,12 +80,30 @@ def dump (s : Store) : String :=
   let ch := String.join (s.chals.map (stS ·.status))
   s!"{os}/{cs}/{az}/{ch}"
 
+def cstS : AcmeConc.CStatus → String
+  | .ready => "r" | .processing => "c" | .valid => "v" | .invalid => "i"
+
+def evalConc (fs : List String) (mode : String) : Option String := do
+  let m ← match mode with
+    | "reread" => some AcmeConc.Mode.reread | "original" => some .original | "claim" => some .claim
+    | _ => none
+  let thsF ← fs.find? (·.startsWith "ths=")
+  let ths ← ((thsF.drop 4).toString.splitOn ".").mapM fun t =>
+    match t with
+    | "f" => some ({ kind := .fin } : AcmeConc.Th) | "p" => some { kind := .poll } | _ => none
+  let scF ← fs.find? (·.startsWith "sched=")
+  let sched ← ((scF.drop 6).toString.splitOn ".").mapM nat?
+  let w : AcmeConc.W := { ths := ths }
+  pure s!"conc{(AcmeConc.exec m w sched).g.certs}:{String.join ((AcmeConc.trace m w sched).map cstS)}"
+
 def eval (line : String) : Option String := do
+  if let some c := (fields line).find? (·.startsWith "conc=") then
+    return ← evalConc (fields line) (c.drop 5).toString
   let f ← (fields line).find? (·.startsWith "ops=")
   let body := (f.drop 4).toString
-  let ops ← if body = "" then some [] else (body.splitOn ";").mapM op?
-  let (s, outs) := ops.foldl (fun (acc : Store × List String) op =>
-    let (s', r) := step acc.1 op
+  let ops ← if body = "" then some [] else (body.splitOn ";").mapM req?
+  let (s, outs) := ops.foldl (fun (acc : Store × List String) rq =>
+    let (s', r) := step rq.1 acc.1 rq.2
     (s', (respS r ++ "/" ++ dump s') :: acc.2)) (({} : Store), [])
   pure s!"T{s.certs.length}:{"|".intercalate outs.reverse}"
 
